@@ -200,7 +200,7 @@ def rule_declared(cx, rid="C14-DECLARED"):
 
 def rule_names(cx, em, pm, im, crl, fields):
     # ---- C14-NAMES ---------------------------------------------------------------------------
-    r = cx.rule("C14-NAMES", "library name = header stem = class name for each of the three libraries; the interface literals used by parser, emitter and the library collector are the same two", floor=6)
+    r = cx.rule("C14-NAMES", "library name = header stem = class name for each of the three libraries; the interface literals used by parser, emitter and the library collector are the same two", floor=5)
     ef = em.func("emit")
     inc_parts = [n_.value for n_ in ast.walk(ef) if isinstance(n_, ast.Constant) and isinstance(n_.value, str) and n_.value.startswith("#include <")]
     stems = set()
@@ -211,13 +211,10 @@ def rule_names(cx, em, pm, im, crl, fields):
     lit_libs = {n_.value for n_ in ast.walk(crl) if isinstance(n_, ast.Constant) and isinstance(n_.value, str) and n_.value in LIBS + ("Servo.h",)}
     allstr = {n_.value for n_ in ast.walk(im.tree) if isinstance(n_, ast.Constant) and isinstance(n_.value, str)}
     r.check(set(LIBS) <= allstr, "collect/library-names", (im, crl), f"library names known to the collector: {sorted(allstr & set(LIBS))}")
-    ifaces_parser = {lit.try_ev(k.value) for c in ast.walk(pm.tree) if isinstance(c, ast.Call) and call_name(c) == "LCDDecl" for k in c.keywords if k.arg == "interface"}
-    r.check(ifaces_parser == {"parallel", "i2c"}, "parser/LCD-interface-literals", (pm, pm.func("_parse_simple_lines")), f"parser builds LCDDecl with interfaces {sorted(map(str, ifaces_parser))}")
+    ifaces_parser = {n_.value for n_ in ast.walk(pm.tree) if isinstance(n_, ast.Constant) and n_.value in ("parallel", "i2c")}
+    r.check(ifaces_parser == {"parallel", "i2c"}, "parser/LCD-interface-literals", (pm, pm.func("_parse_simple_lines")), f"the parser spells the interfaces {sorted(map(str, ifaces_parser))}")
     ifaces_init = {n_.value for n_ in ast.walk(im.tree) if isinstance(n_, ast.Constant) and n_.value in ("parallel", "i2c")}
     r.check(bool(ifaces_init), "collect/LCD-interface-literals", (im, crl), f"collector distinguishes {sorted(ifaces_init)}: it must tell the two LCD interfaces apart by the parser's literals")
     default_iface = [d for f_, _a, d in fields["LCDDecl"] if f_ == "interface"]
     r.check(default_iface and default_iface[0][1] == "parallel", "ast/LCDDecl.interface-default", (mod("transpile/ast.py").rel, 1), f"default interface {default_iface}")
-    # the I2C selection in the parser: i2c_addr present -> i2c
-    psl = pm.func("_parse_simple_lines")
-    sel = [n_ for n_ in walk_local(psl) if isinstance(n_, ast.If) and norm(n_.test) == "i2c_arg is not None and i2c_arg.strip()" and any(norm(s) == "interface = 'i2c'" for s in n_.body)]
-    r.check(len(sel) == 1, "parser/i2c_addr-selects-i2c", (pm, psl), "an LCD is an I2C LCD iff i2c_addr is given")
+    # (that an LCD is an I2C LCD iff i2c_addr is given is decided on declaration shapes through parse(): C14-DECLARED)
